@@ -2,11 +2,13 @@ package main
 
 import (
 	"bytes"
+	"crypto/rand"
 	"fmt"
 	"sort"
 	"strings"
 	"unicode/utf8"
 
+	cose "github.com/veraison/go-cose"
 	psa "github.com/veraison/psatoken"
 )
 
@@ -466,5 +468,95 @@ func runC10(r *Run, rng *Rng, thorough bool) {
 			r.Fail("wire-format", why)
 		}
 	})
-	r.extra["note"] = "payloads of ValidateAndSign output are judged by the C03 check with the same wireFormatOK"
+	// payload of ValidateAndSign output — on a fresh Evidence, on an Evidence that was decoded from a token (claims
+	// changed through a setter in between or not), on an Evidence decoded from a token whose payload is *not* in the
+	// wire format (unknown key, non-shortest head), and on an Evidence that signed before
+	ks := keys()
+	nEv := 120
+	if thorough {
+		nEv = 6000
+	}
+	for i := 0; i < nEv; i++ {
+		d := c19Claims(rng, true)
+		k := ks[rng.Intn(2)]
+		signer, _ := cose.NewSigner(k.algs[0], k.priv)
+		var ev *psa.Evidence
+		class := ""
+		switch i % 4 {
+		case 0:
+			class = "vsign/fresh"
+			ev = &psa.Evidence{}
+			if ev.SetClaims(d.Build()) != nil {
+				continue
+			}
+		case 1:
+			class = "vsign/after-decode"
+			tok, _, err := signedToken(d, k, k.algs[0])
+			if err != nil {
+				continue
+			}
+			ev, err = psa.DecodeEvidenceFromCOSE(tok)
+			if err != nil {
+				continue
+			}
+			if rng.Bool() {
+				_ = ev.Claims.SetNonce(fill(Pick(rng, []int{32, 48, 64}), byte(rng.Intn(250))))
+				_ = ev.Claims.SetClientID(int32(rng.Intn(100000)) - 50000)
+			}
+		case 2:
+			class = "vsign/after-decode-of-foreign-payload"
+			// a payload that decodes and validates but is not in the wire format: an unknown key and a non-shortest head
+			t := tokenOf(d)
+			t.Pairs = append(t.Pairs, [2]*Node{nUint(99999), nTstr("not a PSA claim")})
+			if len(t.Pairs) > 1 {
+				t.Pairs[1][0].W = 8
+			}
+			m := cose.NewSign1Message()
+			m.Payload = t.Bytes()
+			m.Headers.Protected.SetAlgorithm(k.algs[0])
+			if m.Sign(rand.Reader, []byte(""), signer) != nil {
+				continue
+			}
+			tok, err := m.MarshalCBOR()
+			if err != nil {
+				continue
+			}
+			ev, err = psa.DecodeEvidenceFromCOSE(tok)
+			if err != nil {
+				continue
+			}
+		default:
+			class = "vsign/twice"
+			ev = &psa.Evidence{}
+			if ev.SetClaims(d.Build()) != nil {
+				continue
+			}
+			if _, err := ev.ValidateAndSign(signer); err != nil {
+				continue
+			}
+			_ = ev.Claims.SetNonce(fill(32, byte(rng.Intn(250))))
+		}
+		if ev.Claims.Validate() != nil {
+			continue
+		}
+		now, ok := DescOf(ev.Claims)
+		if !ok {
+			continue
+		}
+		tok, err := ev.ValidateAndSign(signer)
+		line := "cbor=err"
+		var payload []byte
+		if err == nil {
+			_, payload, _, _ = envelopeParts(tok)
+			line = "cbor=" + hx(payload)
+		}
+		r.Case(class, false, "enc "+now.Line(), line)
+		if err != nil {
+			r.Fail("encode-valid", fmt.Sprintf("ValidateAndSign of valid claims fails: %v", err))
+			continue
+		}
+		if why := wireFormatOK(payload, &now); why != "" {
+			r.Fail("wire-format", "payload of ValidateAndSign: "+why)
+		}
+	}
 }
